@@ -229,7 +229,7 @@ def _run(ctx, exact, ncases, kpm_cases, as_tie):
         seed = rng.randrange(2**31)
         p = make_problem(seed, exact, ctx.n(6, 9) if not kpm else 7, N if not kpm else 2, kpm=kpm)
         atol = 1e-4
-        fs, cmpd = compare(p, 1e-9 if not kpm else 10 * atol, kpm_atol=atol)
+        fs, cmpd = compare(p, 1e-9 if not kpm else 3 * atol, kpm_atol=atol)
         total += cmpd
         ko = p["kpm_opts"] or {}
         feats.add((p["hermitian"], p["cplx"], tuple(p["sizes"]), len(p["hs"]), bool(p["fully"]), len(set(p["levels"])) < len(p["levels"]), kpm,
@@ -352,7 +352,7 @@ def replay(inp):
         print("  witness:", "no exception" if e is None else "%s: %s" % (type(e).__name__, e))
         return 1 if e is not None else 0
     p = make_problem(inp["seed"], inp["exact"], inp["nmax"], inp["N"], kpm=inp.get("kpm", False))
-    fs, _ = compare(p, 1e-9 if not p["kpm"] else 1e-3, kpm_atol=1e-4)
+    fs, _ = compare(p, 1e-9 if not p["kpm"] else 3e-4, kpm_atol=1e-4)
     for f in fs:
         print("  still failing:", f)
     return 1 if fs else 0
